@@ -110,7 +110,7 @@ def first_para(note, keys):
 def parse_check_output(out):
     viols = re.findall(r"^VIOLATION property=(\S+) replay=(\S+)", out, re.M)
     summ = re.search(r"^SUMMARY .*", out, re.M)
-    sigs = re.findall(r"^\[violation\] (\S+) x(\d+)", out, re.M)
+    sigs = re.findall(r"^\[violation\] (.+?) x(\d+) lanes=", out, re.M)
     return dict(violation_lines=len(viols), signatures=[f"{s} x{n}" for s, n in sigs][:12], summary=summ.group(0) if summ else None,
                 inconclusive=bool(re.search(r"^INCONCLUSIVE", out, re.M)))
 
